@@ -177,7 +177,7 @@ class Project:
 
     PKG_DIR = os.path.join("src", "asphalt", "core")
 
-    def __init__(self, root: str, overrides: dict | None = None):
+    def __init__(self, root: str, overrides: dict | None = None, inline: bool = True):
         """``overrides``: relpath -> source text, used by the self-test to analyse
         in-memory variants of the tree."""
         self.root = root
@@ -213,6 +213,23 @@ class Project:
                 sha256=hashlib.sha256(src.encode()).hexdigest(),
             )
             self.modules[mod.name] = mod
+        for mod in self.modules.values():
+            self._index_module(mod)
+        self.inline_log: list = []
+        if inline:
+            from .effects import Analysis
+            from .inline import Inliner
+
+            inl = Inliner(self, Analysis(self))
+            inl.run()
+            self.inline_log = inl.log
+
+    def reindex(self) -> None:
+        self.functions = {}
+        self.classes = {}
+        self._func_by_node = {}
+        for mod in self.modules.values():
+            mod.imports, mod.functions, mod.classes, mod.assigns = {}, {}, {}, {}
         for mod in self.modules.values():
             self._index_module(mod)
 
